@@ -64,7 +64,9 @@ Record obs := {
   o_changed : list bool;                  (* per op: did the flushed tree change *)
   o_pend : list N;                        (* per op: Edits.Count() after it *)
   o_stash : list bool;                    (* per op: stash != nil after it *)
-  o_reads : list mreads
+  o_reads : list mreads;
+  o_bad : bool                            (* the implementation reported a number outside [0, 2^64):
+                                             a negative / wrapped ordinal, cardinality, count ... *)
 }.
 
 Definition case := (input * obs)%type.
@@ -134,7 +136,7 @@ Definition model_obs (i : input) : obs :=
   let rb := rb_table (shapes_of i) in
   let '(ch, pe, st, rs) := run_ops rb (i_w i) (i_probes i) (mutate (i_tree i) (i_maxp i)) (map fst (i_ops i)) in
   {| o_s := static_reads (i_w i) (i_probes i) (i_tree i);
-     o_changed := ch; o_pend := pe; o_stash := st; o_reads := rs |}.
+     o_changed := ch; o_pend := pe; o_stash := st; o_reads := rs; o_bad := false |}.
 
 (* ---- comparison ----------------------------------------------------------- *)
 Definition sreads_eqb (a b : sreads) : bool :=
@@ -160,7 +162,8 @@ Definition obs_eqb (a b : obs) : bool :=
   && list_eqb Bool.eqb (o_changed a) (o_changed b)
   && list_eqb N.eqb (o_pend a) (o_pend b)
   && list_eqb Bool.eqb (o_stash a) (o_stash b)
-  && list_eqb mreads_eqb (o_reads a) (o_reads b).
+  && list_eqb mreads_eqb (o_reads a) (o_reads b)
+  && Bool.eqb (o_bad a) (o_bad b).
 
 (* ---- the property as an executable predicate on implementation output ----- *)
 
@@ -211,6 +214,8 @@ Fixpoint oracle_ops (w : N) (pr : probes) (s : astate) (ops : list op) (rs : lis
   end.
 
 Definition oracle (i : input) (o : obs) : bool :=
+  (* every number the implementation reported is a number *)
+  negb (o_bad o) &&
   (* the real tree is a well-formed tree holding the given contents *)
   wf_rootb (i_tree i) && kvl_eqb (flatten (i_tree i)) (i_init i)
   && sreads_eqb (o_s o) (dict_sreads (i_w i) (i_probes i) (i_init i))
